@@ -43,6 +43,18 @@ def engine_gap(exc):
         return "unsupported construct"
     if isinstance(exc, AttributeError) and getattr(exc, "obj", None) is not None and _from_engine(exc.obj) and not isinstance(exc.obj, _T.Sym):
         return f"the stand-in {getattr(exc.obj, '__name__', type(exc.obj).__name__)} of the engine has no attribute {getattr(exc, 'name', '?')!r}"
+    if isinstance(exc, (TypeError, AttributeError)):
+        # an operation the ghost / stand-in objects of the contracts do not provide: the class is named in the message and one of its instances is a local of the
+        # repository frame that raised
+        tb, last = exc.__traceback__, None
+        while tb is not None:
+            tb, last = tb.tb_next, tb
+        if last is not None:
+            for v in list(last.tb_frame.f_locals.values()):
+                cls = type(v)
+                mod = getattr(cls, "__module__", "") or ""
+                if (mod.startswith("contracts") or _from_engine(cls)) and not isinstance(v, _T.Sym) and _re.search(r"\b%s\b" % _re.escape(cls.__name__), str(exc)):
+                    return f"the ghost object {cls.__name__} of the checker does not provide the operation the code asks for"
     if isinstance(exc, TypeError):
         m = _re.match(r"(?:\w+\.)*(\w+)\(\) (got an unexpected keyword argument|takes|missing|got multiple values)", str(exc))
         if m and callable(getattr(_vnp, m.group(1), None)) and _from_engine(getattr(_vnp, m.group(1))):
